@@ -134,6 +134,8 @@ register(NativeGroup('plumb.near', dict(quick=[('near', 2), ('near', 3)], thorou
                      _BN % (3, 3) + '; distinct trains whose spike times differ by a few 1e-9 (np.isclose / np.allclose would call them equal)', _WR))
 register(NativeGroup('plumb.same_window', dict(quick=[('same_window', 2), ('same_window', 3)], thorough=[('same_window', 2), ('same_window', 3), ('same_window', 4)]),
                      _BN % (3, 4) + '; for one call every entry point of the SPIKE-Sync / order / directionality family hands the same (max_tau, MRTS) to the kernels', _WR))
+register(NativeGroup('plumb.inplace', dict(quick=[('inplace', 2), ('inplace', 3)], thorough=[('inplace', 2), ('inplace', 3), ('inplace', 4)]),
+                     _BN % (3, 4) + '; history: call, change a spike time of a train in place, call again - the second result is the one for the current spike times', _WR))
 register(NativeGroup('plumb.repeated', dict(quick=[('repeated', 2), ('repeated', 3)], thorough=[('repeated', 2), ('repeated', 3), ('repeated', 4)]),
                      _BN % (3, 4) + '; lists in which a spike train occurs more than once (identical spike times), also next to trains without spikes', _WR))
 register(NativeGroup('plumb.reconcile', dict(quick=[('reconcile', 2), ('reconcile', 3)], thorough=[('reconcile', 2), ('reconcile', 3), ('reconcile', 4)]), _BN % (3, 4), _WR))
